@@ -120,7 +120,7 @@ pub fn jobs(tier: Tier) -> Vec<Job> {
 
 pub fn job_size(job: &Job) -> usize {
     match job {
-        Job::Single { si, .. } | Job::Subsets { si, .. } | Job::Burst { si, .. } | Job::Spread { si, .. } | Job::AllBlocks { si, .. } | Job::LeadingZero { si, .. } | Job::Supercode { si, .. } | Job::SyndromeAlphabet { si, .. } | Job::ZeroRange { si, .. } | Job::SyndromePrefix { si, .. } | Job::Phantom { si, .. } | Job::ErrorsPlusZeroPrefix { si, .. } => *si,
+        Job::Single { si, .. } | Job::Subsets { si, .. } | Job::Burst { si, .. } | Job::Spread { si, .. } | Job::AllBlocks { si, .. } | Job::LeadingZero { si, .. } | Job::Supercode { si, .. } | Job::SyndromeAlphabet { si, .. } | Job::ZeroRange { si, .. } | Job::SyndromePrefix { si, .. } | Job::Phantom { si, .. } | Job::ErrorsPlusZeroPrefix { si, .. } | Job::HankelSingular { si, .. } => *si,
         Job::Ball10 { .. } => 0,
     }
 }
